@@ -182,10 +182,10 @@ def refresh_makefile():
             raise RuntimeError('coq_makefile failed: ' + out)
 
 
-def regenerate():
-    """Run the translator. Returns (ok, message)."""
-    rc, out, _ = sh('PYTHONPATH=%s PYTHONHASHSEED=0 %s %s' % (REPO, sys.executable, os.path.join(ROOT, 'tools', 'gen_data.py')),
-                    timeout=600)
+def regenerate(names=()):
+    """Run the translator (all generators, or only the named ones). Returns (ok, message)."""
+    rc, out, _ = sh('PYTHONPATH=%s PYTHONHASHSEED=0 %s %s %s' % (REPO, sys.executable, os.path.join(ROOT, 'tools', 'gen_data.py'),
+                                                                ' '.join(names)), timeout=600)
     return rc == 0, out[-4000:]
 
 
@@ -253,13 +253,36 @@ def strip_comments(src):
     return ''.join(out)
 
 
-def hygiene():
-    hits = []
+def closure(vfile):
+    """.v files under coq/ that vfile transitively Requires (by module base name)."""
+    index = {}
     for dp, _, fs in os.walk(COQ):
         for f in fs:
-            if not f.endswith('.v'):
-                continue
-            p = os.path.join(dp, f)
+            if f.endswith('.v'):
+                index[f[:-2]] = os.path.join(dp, f)
+    seen, todo = {}, [vfile]
+    while todo:
+        p = todo.pop()
+        if p in seen or not os.path.exists(p):
+            continue
+        seen[p] = True
+        src = strip_comments(open(p).read())
+        for m in re.finditer(r'(?:From\s+SV\s+)?Require\s+(?:Import\s+|Export\s+)?([^.]*(?:\.[A-Za-z_][^.]*)*)\.', src):
+            for nm in m.group(1).split():
+                base = nm.split('.')[-1]
+                if base in index:
+                    todo.append(index[base])
+    return sorted(seen)
+
+
+def hygiene(files=None):
+    hits = []
+    if files is None:
+        files = []
+        for dp, _, fs in os.walk(COQ):
+            files += [os.path.join(dp, f) for f in fs if f.endswith('.v')]
+    for p in files:
+        if True:
             src = strip_comments(open(p).read())
             src_nostr = re.sub(r'"(?:[^"]|"")*"', '""', src)
             depth = 0
@@ -466,7 +489,7 @@ def main_check(prop_id, tier, seed, replay=None):
 
     # 1. translator
     with Lock():
-        ok, msg = regenerate()
+        ok, msg = regenerate(getattr(mod, 'GENERATORS', ['gen_codes']))
         if not ok:
             broken.append('translator tools/gen_data.py: cannot represent the source: ' + msg[-600:])
         # 2. build
@@ -502,9 +525,18 @@ def main_check(prop_id, tier, seed, replay=None):
                 if nm.split('.')[-1] not in allowed:
                     broken.append('theorem %s depends on undeclared axiom %s' % (k, nm))
     # 3. hygiene
-    hy = hygiene()
+    hy = hygiene(closure(os.path.join(COQ, 'props', '%s_Props.v' % prop_id)))
     if hy:
         broken.append('proof base compromised: ' + '; '.join(hy[:5]))
+
+    # thorough tier: independent re-check of the compiled closure with coqchk
+    coqchk_out = None
+    if tier == 'thorough' and bok and not os.environ.get('SV_NO_COQCHK'):
+        rc, cout, cw = sh('timeout 1500 coqchk -silent -o -R %s SV SV.props.%s_Props' % (COQ, prop_id), timeout=1530)
+        coqchk_out = cout[-2500:]
+        if rc != 0:
+            broken.append('coqchk failed: ' + cout[-800:])
+        cov['coqchk'] = {'rc': rc, 'wall_s': round(cw, 1), 'output_tail': coqchk_out}
 
     # 4. cases
     rng = random.Random(seed)
